@@ -17,7 +17,7 @@ fn expand_conf(key: &[u8; 128], len: usize, t1: usize) -> bool {
     ok
 }
 
-//@ harness name=rc2_expand_quick prop=C09,C20 tier=quick bits=146 est=120 desc="D: Rc2::expand_key(key[..T], T1) == RFC 2268 key expansion for key length T symbolic in 1..=16 and effective key length T1 symbolic in 1..=1024 bits, all key bytes; all PITABLE / buffer indices in range, no overflow"
+//@ harness name=rc2_expand_quick prop=C09,C20 tier=quick bits=146 est=120 cap=3600 desc="D: Rc2::expand_key(key[..T], T1) == RFC 2268 key expansion for key length T symbolic in 1..=16 and effective key length T1 symbolic in 1..=1024 bits, all key bytes; all PITABLE / buffer indices in range, no overflow"
 verif_harness! {
     name: rc2_expand_quick,
     bytes: 19,
@@ -35,6 +35,35 @@ verif_harness! {
             i += 1;
         }
         Some(expand_conf(&key, len, t1))
+    }
+}
+
+//@ harness name=rc2_expand_gquick prop=C09,C20 tier=quick bits=146 est=120 cap=3600 desc="TEMP: as rc2_expand_quick against the index-guarded formulation of the oracle"
+verif_harness! {
+    name: rc2_expand_gquick,
+    bytes: 19,
+    unwind: 130,
+    prop: |inp| {
+        let k16: [u8; 16] = take(inp, 0);
+        let len = inp[16] as usize;
+        let t1 = take_u16(inp, 17) as usize;
+        vassume!(1 <= len && len <= 16);
+        vassume!(1 <= t1 && t1 <= 1024);
+        let mut key = [0u8; 128];
+        let mut i = 0;
+        while i < 16 {
+            key[i] = k16[i];
+            i += 1;
+        }
+        let k = Rc2::expand_key(&key[..len], t1);
+        let e = r::expand_key_g(&key, len, t1);
+        let mut ok = true;
+        i = 0;
+        while i < 64 {
+            ok &= k[i] == e[i];
+            i += 1;
+        }
+        Some(ok)
     }
 }
 
